@@ -19,24 +19,30 @@ import ascmhl.commands as C
 DEFAULT_PATTERNS = [".DS_Store", "ascmhl", "ascmhl/"]
 
 
+def _lit(name):
+    """a name as a literal gitwildmatch pattern (the backslash is the pattern language's escape character)"""
+    return name.replace("\\", "\\\\")
+
+
 def concrete_pattern(world, pat):
     """abstract pattern string -> concrete gitwildmatch line"""
     if pat.startswith("n:"):
-        return world.names[pat[2:]]
+        return _lit(world.names[pat[2:]])
     if pat.startswith("!n:"):
-        return "!" + world.names[pat[3:]]
+        return "!" + _lit(world.names[pat[3:]])
     if pat == "g:tmp":
         return "*.tmp"
     if pat.startswith("a:"):  # anchored path pattern
-        return "/".join(world.names[a] for a in pat[2:].split("/"))
+        return "/".join(_lit(world.names[a]) for a in pat[2:].split("/"))
     if pat.startswith("d:"):  # directory pattern with trailing slash
-        return world.names[pat[2:]] + "/"
+        return _lit(world.names[pat[2:]]) + "/"
     return pat
 
 
 def abstract_pattern(world, conc):
     if conc in DEFAULT_PATTERNS:
         return conc
+    conc = conc.replace("\\\\", "\\")      # undo _lit
     if conc == "*.tmp":
         return "g:tmp"
     if conc.endswith("/") and conc[:-1] in world.rnames:
